@@ -58,6 +58,7 @@ def tasks(tier):
     t.append(('factories',))
     t.append(('lemmas',))
     t.append(('canaries',))
+    t.append(('cache_transparency',))
     return t
 
 
@@ -455,4 +456,80 @@ def run_canaries():
     v, m_, dt, be = solve.prove([z3.Real('x') > 0], z3.Real('x') * 2 > 0, TIMEOUT)
     res.append({'name': f'{PID}/canary/trivially-true', 'case': '-', 'kind': 'canary-true', 'verdict': v, 'secs': dt,
                 'backend': be})
+    return res
+
+
+# ------------------------------------------------------------------------------------------------ cache transparency (T7)
+def _self_reads(cls, mname, seen=None):
+    """attributes of `self` read by method `mname` of class info `cls` (following self.method() calls)."""
+    import ast
+    seen = seen or set()
+    if (cls.name, mname) in seen or mname not in cls.methods:
+        return set()
+    seen.add((cls.name, mname))
+    node = cls.methods[mname]
+    params = [a.arg for a in node.args.args]
+    if not params:
+        return set()
+    return _reads_on(node, params[0], cls, seen)
+
+
+def _reads_on(node, pname, cls, seen):
+    import ast
+    out = set()
+    for n in ast.walk(node):
+        if isinstance(n, ast.Attribute) and isinstance(n.value, ast.Name) and n.value.id == pname:
+            if cls is not None and n.attr in cls.methods:
+                out |= _self_reads(cls, n.attr, seen)
+            else:
+                out.add(n.attr)
+    return out
+
+
+def run_cache_transparency():
+    """functools.cache is treated as transparent by the engine (T7).  That is only sound if a cached function depends
+    on its hashable arguments through nothing but the fields their __eq__/__hash__ compare.  Checked syntactically
+    for every @cache / @lru_cache function of the package (a 'reads' frame condition)."""
+    import ast
+    res = []
+    repo = vc.repo()
+    for cname, cls in repo.classes.items():
+        for mname, node in cls.methods.items():
+            decs = cls.decorators.get(mname, [])
+            if not any(d.split('(')[0].split('.')[-1] in ('cache', 'lru_cache') for d in decs):
+                continue
+            static = 'staticmethod' in decs
+            params = node.args.args
+            bad = []
+            for i, a in enumerate(params):
+                pcls = None
+                if i == 0 and not static:
+                    pcls = cls
+                elif a.annotation is not None:
+                    ann = ast.unparse(a.annotation).strip("'\"")
+                    pcls = repo.classes.get(ann)
+                if pcls is None or '__eq__' not in pcls.methods:
+                    continue
+                eqf = _self_reads(pcls, '__eq__')
+                if '__hash__' in pcls.methods:
+                    eqf &= _self_reads(pcls, '__hash__') | {'contents'}
+                reads = _reads_on(node, a.arg, pcls, set())
+                extra = sorted(r for r in reads if r not in eqf and not r.startswith('__'))
+                if extra:
+                    bad.append((a.arg, pcls.name, extra))
+            r = {'name': f'{PID}/cache-transparent', 'case': f'{cname}.{mname}', 'kind': 'property',
+                 'verdict': 'refuted' if bad else 'proved', 'secs': 0.0, 'backend': 'syntactic frame (reads) analysis',
+                 'note': None if not bad else f"@cache function reads {bad} — fields that __eq__/__hash__ ignore"}
+            if bad and f'{cname}.{mname}' == 'Unit.convert_from':
+                code = ("from pyplate import Unit, Substance\nfrom pyvc import replaylib as R\n"
+                        "def run():\n"
+                        "    a = Substance.enzyme('lipase', '10 U/mg'); b = Substance.enzyme('lipase', '25 U/mg')\n"
+                        "    ra = Unit.convert_from(a, 1.0, 'g', 'U'); rb = Unit.convert_from(b, 1.0, 'g', 'U')\n"
+                        "    return {'ok': R.close(ra, 10000.0) and R.close(rb, 25000.0), 'observed': [ra, rb], 'expected': [10000.0, 25000.0]}\n")
+                r['replays'] = [{'inputs': {'scenario': 'two equal-named enzymes with different specific activity, '
+                                                        '1 g -> U for each'}, 'code': code}]
+            res.append(r)
+    if not res:
+        res.append({'name': f'{PID}/cache-transparent', 'case': '(no cached functions)', 'kind': 'property',
+                    'verdict': 'proved', 'secs': 0.0, 'backend': 'syntactic'})
     return res
